@@ -117,7 +117,9 @@ class PBESolver(ABC):
                 failed = True
             else:
                 success += 1
-        self._score = success / len(task.specification.examples)
+        n_examples = len(task.specification.examples)
+        # a task without examples is satisfied by every program (as in CutoffPBESolver)
+        self._score = success / n_examples if n_examples > 0 else 1
         return not failed
 
 
